@@ -47,7 +47,7 @@ def main():
         rc, out = sh(f"git apply --3way --whitespace=nowarn {os.path.abspath(a.patch)}", REPO)
         if rc != 0:
             print("PATCH DOES NOT APPLY:", out[-500:])
-            sh("git checkout -- . && git reset -q", REPO)
+            sh("git reset -q --hard HEAD", REPO)
             return 2
         sh("git reset -q", REPO)
     try:
@@ -66,7 +66,7 @@ def main():
             lines = [l for l in out.splitlines() if l.startswith("VIOLATION") or l.startswith("HARNESS") or l.startswith("INCONCLUSIVE") or l.startswith("  clause=")]
             res["checks"][p] = {"exit": rc, "wall": round(time.time() - t0, 1), "lines": [l[:400] for l in lines[:8]]}
     finally:
-        sh("git checkout -- . && git reset -q", REPO)
+        sh("git reset -q --hard HEAD", REPO)
     if not clean():
         print("REPO NOT CLEAN AFTER RESTORE")
         return 2
